@@ -25,6 +25,7 @@ from vlib import (Ctx, CorrResult, OracleResult, Failure, Disagreement, Hist, hx
 from props import _c20_translate
 from props import _c20_gen as G
 from props import _c20_real as R
+from props import _c20_cases as K
 
 PROPERTY = 'C20'
 MANIFEST = {
@@ -78,7 +79,8 @@ def vol(ctx: Ctx, quick: int, thorough: int) -> int:
 # leg A: SOCKS parser, leg B: relay machine (object level)
 
 
-VARIANT_NAMES = {'a': 'as-is', 'e': 'eof-repair', 'l': 'early-loss-repair', 'f': 'repaired'}
+VARIANT_NAMES = {'a': 'as-is', 'e': 'eof-repair', 'l': 'early-loss-repair', 'f': 'repaired',
+                 'g': 'repaired-incl-open-crash', 'r': 'cleanup-race-repair'}
 
 
 def _pick_variant(name: str, cases: List[Any], impl: List[Any], models: Dict[str, List[Any]],
@@ -123,7 +125,7 @@ def corr_socks(ctx: Ctx, res: CorrResult, hist: Hist) -> None:
             hist.hit('socks:impl-raises:' + exc)
     lines_a = ['socks a ' + ' '.join(hx(c) for c in ch) for ch in cases]
     lines_f = ['socks f ' + ' '.join(hx(c) for c in ch) for ch in cases]
-    out = ctx.model(DRIVER, lines_a + lines_f)
+    out = yield (lines_a + lines_f)
     mod_a = [G.canon_socks_model(l) for l in out[:len(cases)]]
     mod_f = [G.canon_socks_model(l) for l in out[len(cases):]]
     _pick_variant('socks', [{'op': 'socks', 'chunks': [c.hex() for c in ch]} for ch in cases],
@@ -161,15 +163,15 @@ def corr_relay(ctx: Ctx, res: CorrResult, hist: Hist) -> None:
         legal_flags.append(legal_only)
         hist.hit('relay:legal-sequence' if legal_only else 'relay:with-illegal-events')
         for t in toks:
-            hist.hit('relay:ev:' + (t if t in ('ok', 'fail') else t[:2]))
+            hist.hit('relay:ev:' + (t if t in ('ok', 'fail', 'crash') else t[:2]))
     lines: List[str] = []
-    for v in 'aelf':
+    for v in RELAY_VARIANTS:
         lines += [f'relay {v} ' + ' '.join(t) for t in cases]
-    out = ctx.model(DRIVER, lines)
+    out = yield (lines)
     n = len(cases)
-    mods = {v: _relay_model_lines(out[k * n:(k + 1) * n]) for k, v in enumerate('aelf')}
+    mods = {v: _relay_model_lines(out[k * n:(k + 1) * n]) for k, v in enumerate(RELAY_VARIANTS)}
     followed = _pick_variant('relay', [{'op': 'relay', 'events': t} for t in cases], impl,
-                             {v: [m[0] for m in mods[v]] for v in 'aelf'}, res, hist)
+                             {v: [m[0] for m in mods[v]] for v in RELAY_VARIANTS}, res, hist)
     # the generator's idea of what the transports may do must be the model's `legal`
     for i, (t, lf) in enumerate(zip(cases, legal_flags)):
         if lf and mods[followed][i][1]:
@@ -180,6 +182,35 @@ def corr_relay(ctx: Ctx, res: CorrResult, hist: Hist) -> None:
     res.cases += len(cases)
     res.nontrivial += len(set(tuple(t) for t in cases))
     res.samples.append({'line': lines[1], 'model': out[1], 'impl': impl[1]})
+
+
+RELAY_VARIANTS = 'aelfg'       # 'f' is the tree before, 'g' the tree after the repair of the open that raises
+
+
+def corr_dest(ctx: Ctx, res: CorrResult, hist: Hist) -> None:
+    """destination side: the real `forward_connection` / `forward_unix_connection` on a stand-in connection whose
+    destination connects at once, with the SSH connection still there or already closed, followed by legal relay
+    events, against `destOpen` of the model (before / after the repair)"""
+    rng = ctx.subrng('dest')
+    cases: List[Dict[str, Any]] = []
+    impl: List[List[str]] = []
+    for i in range(vol(ctx, 200, 4000)):
+        alive = (i % 3 != 0)
+        unix = bool(i % 2)
+        toks, outs = G.gen_dest_case(rng, alive, unix, rng.randrange(0, 8))
+        cases.append({'op': 'destopen', 'alive': alive, 'unix': unix, 'events': toks})
+        impl.append(outs)
+        hist.hit('dest:' + ('connection-alive' if alive else 'connection-lost-while-connecting'))
+    lines = []
+    for v in 'af':
+        lines += ['destopen %s %d %s' % (v, 1 if c['alive'] else 0, ' '.join(c['events'])) for c in cases]
+    out = yield ([l.rstrip() for l in lines])
+    n = len(cases)
+    mods = {v: [m[0] for m in _relay_model_lines(out[k * n:(k + 1) * n])] for k, v in enumerate('af')}
+    _pick_variant('dest', cases, impl, {'a': mods['a'], 'f': mods['f']}, res, hist)
+    res.cases += n
+    res.nontrivial += len(set((c['alive'], c['unix'], tuple(c['events'])) for c in cases))
+    res.samples.append({'line': lines[0], 'model': out[0], 'impl': impl[0]})
 
 
 # ---------------------------------------------------------------------------
@@ -334,8 +365,18 @@ async def perm_session(cfg: Tuple[bool, str, int], reqs: List[Tuple[str, str, in
     return out
 
 
-def perm_requests(rng: Any, full: bool) -> List[Tuple[str, str, int, bool]]:
+def perm_requests(rng: Any, full: bool, extra: bool = False) -> List[Tuple[str, str, int, bool]]:
     reqs: List[Tuple[str, str, int, bool]] = []
+    if extra:
+        # addresses the socket layer would not take literally: ports above 65535, path names with a NUL inside
+        # (the application answers these itself, no socket is made: only the decision is observed here; what
+        # becomes of such a request when asyncssh makes the socket is the oracle's `address` cases)
+        reqs.append(('dt', 'a.example', 65536 + 80, rng.random() < 0.8))
+        reqs.append(('dt', rng.choice(['b.example', 'a.example']), rng.choice([65536, 70000, 2 ** 32 - 1]), True))
+        reqs.append(('tf', 'a.example', rng.choice([65536, 65536 + 8080, 2 ** 31]), rng.random() < 0.8))
+        reqs.append(('ds', '/tmp/verif-c20-x.sock\0.public', 0, rng.random() < 0.8))
+        reqs.append(('ds', '\0verif-c20-abstract\0name', 0, True))
+        reqs.append(('dt', 'a.example', 65535, True))
     dests = DT_DESTS if full else rng.sample(DT_DESTS, 4)
     for h, p in dests:
         reqs.append(('dt', h, p, rng.random() < 0.8))
@@ -351,7 +392,8 @@ def perm_requests(rng: Any, full: bool) -> List[Tuple[str, str, int, bool]]:
     return reqs
 
 
-async def run_perm_configs(configs: List[Tuple[bool, str, int]], rng: Any, base_tmp: str, full: bool) -> List[Any]:
+async def run_perm_configs(configs: List[Tuple[bool, str, int]], rng: Any, base_tmp: str, full: bool,
+                           extra: bool = False) -> List[Any]:
     loop = asyncio.get_event_loop()
     recs: List[R.Rec] = []
     dest = await loop.create_server(lambda: R.Rec(recs), '127.0.0.1', 0)
@@ -360,7 +402,7 @@ async def run_perm_configs(configs: List[Tuple[bool, str, int]], rng: Any, base_
     for i, cfg in enumerate(configs):
         tmp = os.path.join(base_tmp, 'p%d' % i)
         os.makedirs(tmp, exist_ok=True)
-        reqs = perm_requests(rng, full)
+        reqs = perm_requests(rng, full, extra)
         for j, r in enumerate(reqs):
             if r[0] == 'sf' and r[1] == 'LOOP':
                 reqs[j] = ('sf', 'LOOP', 0, r[3])
@@ -398,7 +440,7 @@ def corr_perm(ctx: Ctx, res: CorrResult, hist: Hist) -> None:
                   [(False, 'z', 0), (False, 'c', 0), (False, 'x', 0), (False, 'z', rng.randrange(1, len(PO_SETS)))] + \
                   rng.sample([c for c in configs if c[0] or c[1] in CERT_DENIES], 6)
     tmp = ctx.tmpdir()
-    data = pair.run(run_perm_configs(configs, rng, tmp, ctx.tier != 'quick'), timeout=600)
+    data = pair.run(run_perm_configs(configs, rng, tmp, ctx.tier != 'quick', extra=True), timeout=600)
     lines, expect, cases = [], [], []
     for cfg, obs in data:
         for o in obs:
@@ -409,7 +451,7 @@ def corr_perm(ctx: Ctx, res: CorrResult, hist: Hist) -> None:
             cases.append({'op': 'perm', 'no_port_forwarding': cfg[0], 'cert': cfg[1],
                           'permitopen': po_text(PO_SETS[cfg[2]]), **{k: o[k] for k in ('kind', 'host', 'port', 'app')}})
             hist.hit('perm:%s:%s' % (o['kind'], o['verdict']))
-    out = ctx.model(DRIVER, lines)
+    out = yield (lines)
     for c, m, e in zip(cases, out, expect):
         res.cases += 1
         if m != e:
@@ -445,7 +487,7 @@ def corr_permitopen(ctx: Ctx, res: CorrResult, hist: Hist) -> None:
         lines.append('permitopen ' + hx(v.encode()))
         expect.append(e)
         hist.hit('permitopen:' + ('invalid' if e == 'invalid' else 'parsed'))
-    out = ctx.model(DRIVER, lines)
+    out = yield (lines)
     for l, m, e in zip(lines, out, expect):
         res.cases += 1
         if m != e:
@@ -464,6 +506,10 @@ async def listener_history(ops: List[str], tmp: str) -> Tuple[List[str], int, Di
          Cc close the connection (client side)   Cx cut the link
          Rr race: remote request, link cut before the server has created the listener
          Rl race: local forward started, connection aborted before the listener exists
+         uq<j><g> remote forward of UNIX path j (server table)   ux<i> cancel remote UNIX listener i
+         ul<j> local forward of UNIX path j (client table)        uc<i> close local UNIX listener i
+       events are `q<keyhex>:<port|u>:<granted>:<id>` `c<id>` `l<id>` `x<keyhex>:<port|u>` `C` (ids are the
+       harness's; `renumber` maps them to the model's); UNIX keys are labels (ru<j> / lu<j>), not the real paths
        returns (model events for the table concerned, listening sockets left at the end, extra observations)"""
     base_tcp = R.listening_tcp_ports()
     box: Dict[str, Any] = {'answer': True}
@@ -474,6 +520,8 @@ async def listener_history(ops: List[str], tmp: str) -> Tuple[List[str], int, Di
     nid = 0
     ids_r: List[int] = []
     ids_l: List[int] = []
+    uremote: List[Tuple[Any, int]] = []
+    ulocal: List[Tuple[Any, int]] = []
     info: Dict[str, Any] = {}
     for op in ops:
         if c.is_closed() and op[0] not in 'CR':
@@ -481,7 +529,7 @@ async def listener_history(ops: List[str], tmp: str) -> Tuple[List[str], int, Di
         if op.startswith('rq'):
             g = op[2] == '1'
             box['answer'] = True if g else False
-            ev.append('q%s:%d:%d' % (hx(b'r%d' % nid), nid, 1 if g else 0))
+            ev.append('q%s:%d:%d:%d' % (hx(b'r%d' % nid), nid, 1 if g else 0, nid))
             try:
                 l = await asyncio.wait_for(c.forward_remote_port('127.0.0.1', 0, '127.0.0.1', 9), 2)
                 remote.append(l)
@@ -503,7 +551,7 @@ async def listener_history(ops: List[str], tmp: str) -> Tuple[List[str], int, Di
                 ev.append('x%s:%d' % (hx(b'r%d' % ids_r[i]), ids_r[i]))
                 remote[i] = None
         elif op == 'lq':
-            ev.append('q%s:%d:1' % (hx(b'l%d' % nid), nid))
+            ev.append('q%s:%d:1:%d' % (hx(b'l%d' % nid), nid, nid))
             kind = nid % 3
             if kind == 0:
                 l = await c.forward_local_port('127.0.0.1', 0, '127.0.0.1', 9)
@@ -522,6 +570,50 @@ async def listener_history(ops: List[str], tmp: str) -> Tuple[List[str], int, Di
                 await asyncio.wait_for(local[i].wait_closed(), 1)
                 ev.append('l%d' % ids_l[i])
                 local[i] = None
+        elif op.startswith('uq'):
+            j, g = int(op[2]), op[3] == '1'
+            box['answer'] = True if g else False
+            ev.append('q%s:u:%d:%d' % (hx(b'ru%d' % j), 1 if g else 0, nid))
+            try:
+                l = await asyncio.wait_for(c.forward_remote_path(os.path.join(tmp, 'ru%d.sock' % j), '/nonexistent'), 2)
+                uremote.append((l, j))
+                ev.append('c%d' % nid)
+            except asyncssh.ChannelListenError:
+                uremote.append((None, j))
+            if g:
+                nid += 1
+        elif op.startswith('ux'):
+            i = int(op[2:])
+            if i < len(uremote) and uremote[i][0] is not None:
+                l, j = uremote[i]
+                l.close()
+                try:
+                    await asyncio.wait_for(l.wait_closed(), 1)
+                except (asyncio.TimeoutError, asyncssh.Error):
+                    info['cancel_timeout'] = True
+                ev.append('x%s:u' % hx(b'ru%d' % j))
+                uremote[i] = (None, j)
+        elif op.startswith('ul'):
+            j = int(op[2])
+            ev.append('q%s:u:1:%d' % (hx(b'lu%d' % j), nid))
+            try:
+                if j % 2:
+                    l = await c.forward_local_path_to_port(os.path.join(tmp, 'lu%d.sock' % j), '127.0.0.1', 9)
+                else:
+                    l = await c.forward_local_path(os.path.join(tmp, 'lu%d.sock' % j), '/nonexistent')
+                ulocal.append((l, nid))
+                ev.append('c%d' % nid)
+            except OSError:
+                ulocal.append((None, nid))
+            nid += 1
+        elif op.startswith('uc'):
+            i = int(op[2:])
+            if i < len(ulocal) and ulocal[i][0] is not None:
+                l, lid = ulocal[i]
+                l.close()
+                await asyncio.wait_for(l.wait_closed(), 1)
+                ev.append('l%d' % lid)
+                ulocal[i] = (None, lid)
         elif op == 'Cc':
             c.close()
             try:
@@ -545,7 +637,7 @@ async def listener_history(ops: List[str], tmp: str) -> Tuple[List[str], int, Di
                 await asyncio.wait_for(t, 1)
             except (asyncssh.Error, asyncssh.ChannelListenError, asyncio.TimeoutError, OSError):
                 pass
-            ev += ['q%s:%d:1' % (hx(b'r%d' % nid), nid), 'C', 'c%d' % nid]
+            ev += ['q%s:%d:1:%d' % (hx(b'r%d' % nid), nid, nid), 'C', 'c%d' % nid]
             nid += 1
             await R.wait_until(lambda: s.is_closed() and c.is_closed())
         elif op == 'Rl':
@@ -556,7 +648,7 @@ async def listener_history(ops: List[str], tmp: str) -> Tuple[List[str], int, Di
                 info['race_local_returned_listener'] = l is not None
             except (asyncssh.Error, asyncssh.ChannelListenError, asyncio.TimeoutError, OSError) as e:
                 info['race_local_raised'] = type(e).__name__
-            ev += ['q%s:%d:1' % (hx(b'l%d' % nid), nid), 'C', 'c%d' % nid]
+            ev += ['q%s:%d:1:%d' % (hx(b'l%d' % nid), nid, nid), 'C', 'c%d' % nid]
             nid += 1
             await R.wait_until(lambda: s.is_closed() and c.is_closed())
     return ev, len(base_tcp), info
@@ -580,7 +672,8 @@ async def run_listener_cases(cases: List[List[str]], base_tmp: str, expected: Op
         want = expected[i] if expected is not None else None
 
         def count() -> int:
-            return len(R.listening_tcp_ports()) - base
+            return len(R.listening_tcp_ports()) - base + \
+                len([p for p in R.listening_unix_paths() if p.startswith(tmp)])
         if any(o in ('Rr', 'Rl') for o in ops):
             # a creation task may still be in flight (executor thread): give it the full bounded wait to show up
             await R.wait_until(lambda: count() > 0)
@@ -598,15 +691,31 @@ async def run_listener_cases(cases: List[List[str]], base_tmp: str, expected: Op
 LISTENER_CORPUS = [
     ['rq1', 'Cc'], ['rq1', 'rq1', 'rx0', 'Cx'], ['rq0', 'rq1', 'Cc'], ['lq', 'lq', 'll0', 'Cc'],
     ['lq', 'rq1', 'Cx'], ['Rr'], ['Rl'], ['rq1', 'Rr'], ['lq', 'Rl'], ['rq1', 'rx0', 'rq1', 'Cc'],
+    # UNIX paths: the same path forwarded twice on one connection (the second request must not cost the first
+    # listener its place in the table), forwarded again after a cancel, two different paths
+    ['uq01', 'uq01', 'Cc'], ['uq01', 'uq01', 'ux1', 'Cx'], ['ul0', 'ul0', 'uc0', 'Cc'], ['ul1', 'ul1', 'Cx'],
+    ['uq01', 'ux0', 'uq01', 'Cc'], ['uq01', 'uq11', 'ul0', 'Cc'], ['uq00', 'uq01', 'Cx'], ['ul0', 'uc0', 'ul0', 'Cc'],
 ]
 
 
 def gen_listener_case(rng: Any) -> List[str]:
     ops: List[str] = []
-    nr = nl = 0
+    nr = nl = nur = nul = 0
     for _ in range(rng.randrange(1, 6)):
         k = rng.random()
-        if k < 0.35:
+        if rng.random() < 0.3:
+            # UNIX paths, two per table: repeats are frequent
+            if k < 0.4:
+                ops.append('uq%d%d' % (rng.randrange(2), 1 if rng.random() < 0.85 else 0))
+                nur += 1
+            elif k < 0.55 and nur:
+                ops.append('ux%d' % rng.randrange(nur))
+            elif k < 0.85:
+                ops.append('ul%d' % rng.randrange(2))
+                nul += 1
+            elif nul:
+                ops.append('uc%d' % rng.randrange(nul))
+        elif k < 0.35:
             g = rng.random() < 0.8
             ops.append('rq%d' % (1 if g else 0))
             nr += 1
@@ -629,7 +738,7 @@ def model_listen_lines(ev: List[str], variant: str) -> List[str]:
     for e in ev:
         if e[0] == 'q':
             key = bytes.fromhex(e[1:].split(':')[0])
-            idn = e[1:].split(':')[1]
+            idn = e[1:].split(':')[3]
             owner[idn] = 's' if key.startswith(b'r') else 'c'
             (srv if owner[idn] == 's' else cli).append(e)
         elif e[0] in 'cfl':
@@ -649,11 +758,11 @@ def renumber(ev: List[str]) -> List[str]:
     nxt = 0
     for e in ev:
         if e[0] == 'q':
-            h, idn, g = e[1:].split(':')
+            h, port, g, idn = e[1:].split(':')
             if g == '1':
                 mp[idn] = nxt
                 nxt += 1
-            out.append('q%s:%s:%s' % (h, idn, g))
+            out.append('q%s:%s:%s' % (h, port, g))
         elif e[0] in 'cfl':
             out.append('%s%d' % (e[0], mp.get(e[1:], 9999)))
         else:
@@ -673,32 +782,115 @@ def corr_listen(ctx: Ctx, res: CorrResult, hist: Hist) -> None:
     data = pair.run(run_listener_cases(cases, tmp, None), timeout=900)
     lines: List[str] = []
     for ev, _n, _info in data:
-        lines += model_listen_lines(ev, 'a') + model_listen_lines(ev, 'f')
-    out = ctx.model(DRIVER, lines)
-    impl, ma, mf, cs = [], [], [], []
+        for v in 'afr':
+            lines += model_listen_lines(ev, v)
+    out = yield (lines)
+    impl, cs = [], []
+    mods: Dict[str, List[int]] = {'a': [], 'f': [], 'r': []}
     for i, (ops, (ev, n, info)) in enumerate(zip(cases, data)):
-        a = count_listening(out[4 * i]) + count_listening(out[4 * i + 1])
-        f = count_listening(out[4 * i + 2]) + count_listening(out[4 * i + 3])
+        for k, v in enumerate('afr'):
+            mods[v].append(count_listening(out[6 * i + 2 * k]) + count_listening(out[6 * i + 2 * k + 1]))
         impl.append(n)
-        ma.append(a)
-        mf.append(f)
         cs.append({'op': 'listeners', 'ops': ops, 'model_events': ev})
         for o in ops:
             hist.hit('listen:' + o[:2])
-    _pick_variant('listen', cs, impl, {'a': ma, 'f': mf}, res, hist)
+        # the histories the harness produces must be ones the theorems speak about (repaired variant)
+        if ' legal=0' in out[6 * i + 2] + out[6 * i + 3]:
+            res.disagreements.append(Disagreement(case=cs[-1], model='history not llegalRun for the repaired variant',
+                                                  impl='produced by sequential API calls',
+                                                  name='correspondence:listen-legality'))
+    # (tried in this order: as it stood / with both repairs / with the creation-vs-cleanup repair only)
+    _pick_variant('listen', cs, impl, mods, res, hist)
     res.cases += len(cases)
     res.nontrivial += len(set(tuple(c) for c in cases))
-    res.samples.append({'ops': cases[5], 'model_lines': lines[20:22], 'model': out[20:22], 'impl_listening_left': impl[5]})
+    res.samples.append({'ops': cases[5], 'model_lines': lines[30:32], 'model': out[30:32], 'impl_listening_left': impl[5]})
+
+
+def corr_sockdest(ctx: Ctx, res: CorrResult, hist: Hist) -> None:
+    """`sockDest` of the model against the socket layer itself: the port `getaddrinfo` returns for a numeric
+    service (numbers below 2^31; larger ones it refuses), and the UNIX socket a `connect` to a name with a NUL
+    inside reaches"""
+    import socket
+    rng = ctx.subrng('sockdest')
+    ports = [0, 1, 22, 65535, 65536, 65536 + 22, 70000, 2 * 65536 + 5, 2 ** 31 - 1] + \
+        [rng.randrange(2 ** 31) if rng.random() < 0.5 else rng.randrange(3 * 65536) for _ in range(vol(ctx, 40, 400))]
+    lines, expect = [], []
+    for p in ports:
+        for kind, flags in (('dt', 0), ('tf', socket.AI_PASSIVE)):
+            got = socket.getaddrinfo('127.0.0.1', p, family=socket.AF_INET, type=socket.SOCK_STREAM, flags=flags)[0][4]
+            lines.append('sockdest %s %s %d' % (kind, hx(b'127.0.0.1'), p))
+            expect.append('%s %d' % (hx(got[0].encode()), got[1]))
+            hist.hit('sockdest:port-' + ('in-range' if p < 65536 else 'above-65535'))
+    # UNIX: listening sockets are bound under every prefix of the name that can be bound; which one does a
+    # connect to the full name reach?
+    tmp = ctx.tmpdir()
+    d = os.path.join(tmp, 'sd').encode() + b'/'
+    os.makedirs(d.decode(), exist_ok=True)
+    ab = b'\0verif-c20-%d-' % os.getpid()
+    names = [(d, b'a.sock'), (d, b'a.sock\0.public'), (d, b'a\0b\0c'), (d, b'plain\0'), (ab, b'abs'),
+             (ab, b'abs\0tail'), (ab, b'\0x\0')]
+    for base, tail in names:
+        name = base + tail
+        bound: Dict[bytes, Any] = {}
+        for k in range(1, len(tail) + 1):
+            pre = base + tail[:k]
+            if not pre.startswith(b'\0') and b'\0' in pre:
+                continue        # a path name cannot be bound with a NUL inside either
+            sk = socket.socket(socket.AF_UNIX, socket.SOCK_STREAM)
+            try:
+                sk.bind(pre)
+                sk.listen(1)
+                sk.setblocking(False)
+                bound[pre] = sk
+            except OSError:
+                sk.close()
+        cl = socket.socket(socket.AF_UNIX, socket.SOCK_STREAM)
+        reached: Optional[bytes] = None
+        try:
+            cl.connect(name)
+            for pre, sk in bound.items():
+                try:
+                    acc, _ = sk.accept()
+                    acc.close()
+                    reached = pre
+                except BlockingIOError:
+                    pass
+        except (OSError, ValueError):
+            reached = None
+        cl.close()
+        for pre, sk in bound.items():
+            sk.close()
+            if not pre.startswith(b'\0'):
+                os.unlink(pre)
+        lines.append('sockdest ds %s 0' % hx(name))
+        expect.append('%s 0' % (hx(reached) if reached is not None else 'unreachable'))
+        hist.hit('sockdest:unix-' + ('abstract' if name.startswith(b'\0') else
+                                    ('nul-inside' if b'\0' in name else 'plain')))
+    out = yield (lines)
+    for l, m, e in zip(lines, out, expect):
+        res.cases += 1
+        if m != e:
+            res.disagreements.append(Disagreement(case={'op': 'sockdest', 'line': l}, model=m, impl=e,
+                                                  name='correspondence:socket-layer-address'))
+    res.nontrivial += len(set(lines))
 
 
 def correspondence(ctx: Ctx) -> CorrResult:
     res = CorrResult()
     hist = Hist()
-    corr_socks(ctx, res, hist)
-    corr_relay(ctx, res, hist)
-    corr_permitopen(ctx, res, hist)
-    corr_perm(ctx, res, hist)
-    corr_listen(ctx, res, hist)
+    # every leg runs the implementation, yields its lines for the Lean driver and compares when it gets the
+    # answers back: one driver run for all legs (starting the driver is the expensive part)
+    legs = [leg(ctx, res, hist) for leg in (corr_socks, corr_relay, corr_dest, corr_sockdest, corr_permitopen,
+                                            corr_perm, corr_listen)]
+    batches = [list(next(g)) for g in legs]
+    out = ctx.model(DRIVER, [l for b in batches for l in b])
+    pos = 0
+    for g, b in zip(legs, batches):
+        try:
+            g.send(out[pos:pos + len(b)])
+        except StopIteration:
+            pass
+        pos += len(b)
     res.histogram = dict(hist)
     res.rule = ('SOCKS: seeded SOCKS4/4a/5 requests (+35% mutated, + corpus) in 4 chunking styles fed to the real '
                 'SSHSOCKSForwarder, compared call by call (writes, close, forward(host, port), escaping exception, '
@@ -1300,6 +1492,9 @@ def oracle(ctx: Ctx) -> OracleResult:
         if n:
             side = 'server' if 'Rr' in ops else ('client' if 'Rl' in ops else 'no-race')
             sig = f'listener-leak:created-after-cleanup:{side}' if side != 'no-race' else 'listener-leak:after-cleanup'
+            twice = [t for t in ('uq0', 'uq1', 'ul0', 'ul1') if sum(1 for o in ops if o.startswith(t)) > 1]
+            if side == 'no-race' and twice:
+                sig = 'listener-leak:unix-path-forwarded-twice:' + ('server' if twice[0][1] == 'q' else 'client')
             lrep[sig] = lrep.get(sig, 0) + 1
             if lrep[sig] <= 2:
                 res.failures.append(Failure(
@@ -1323,7 +1518,31 @@ def oracle(ctx: Ctx) -> OracleResult:
             if mrep[sig] <= 2:
                 res.failures.append(Failure(signature=sig, what=what, replay={
                     'kind': 'multi-forward', 'kinds': kinds_, 'probes': probes_, 'cancel': cancel_}))
-    res.nontrivial = len(set(b''.join(c) for c in cases)) + len(set((k, tuple(s)) for k, s in scen)) + \
+    # (6) edges of a forward's life (deterministic corpus, see _c20_cases.py) ------------------------------------------
+    edata = pair.run(edge_cases(tmp), timeout=900)
+    for grp, name, probs in edata:
+        res.evaluations += 1
+        hist.hit(f'edge:{grp}:' + ('problem' if probs else 'ok'))
+        for sig, what, rep in probs:
+            hist.hit('edge-problem:' + sig)
+            res.failures.append(Failure(signature=sig, what=what, replay=rep))
+    # the runner prints the first few failures: let them be of different root causes (first one failure per
+    # signature family, then one per signature, then the rest; order within each group unchanged)
+    fam_seen: set = set()
+    sig_seen: set = set()
+    first, second, rest = [], [], []
+    for f in res.failures:
+        fam = ':'.join(f.signature.split(':')[:2])
+        if fam not in fam_seen:
+            first.append(f)
+        elif f.signature not in sig_seen:
+            second.append(f)
+        else:
+            rest.append(f)
+        fam_seen.add(fam)
+        sig_seen.add(f.signature)
+    res.failures = first + second + rest
+    res.nontrivial = len(edata) + len(set(b''.join(c) for c in cases)) + len(set((k, tuple(s)) for k, s in scen)) + \
         sum(len(o) for _c, o in pdata) + len(set(tuple(c) for c in lcases))
     res.histogram = dict(hist)
     res.samples = [{'scenario': scen[4][0], 'script': scen[4][1], 'problems': data[4][2]},
@@ -1337,6 +1556,34 @@ def oracle(ctx: Ctx) -> OracleResult:
                 'sessions judged against an independent statement of the OpenSSH rule; listener histories incl. '
                 'creation racing cleanup judged by listening sockets left')
     return res
+
+
+# ---------------------------------------------------------------------------------------------------------
+# (6) edge cases: a problem counts only if it shows in each of three attempts (guards against a slow wall clock)
+
+
+async def edge_cases(base_tmp: str) -> List[Tuple[str, str, List[K.Problem]]]:
+    out: List[Tuple[str, str, List[K.Problem]]] = []
+    todo: List[Tuple[str, str, Any]] = \
+        [('address', c, lambda t, c=c: K.address_case(c, t)) for c in K.ADDRESS_CASES] + \
+        [('hostile-listen', f'{k}:{a[:12]}', lambda t, k=k, a=a: K.hostile_listen_case(k, a, t)) for k, a in K.HOSTILE_LISTEN] + \
+        [('dest-race', c, lambda t, c=c: K.dest_race_case(c, t)) for c in K.DEST_RACE_CASES] + \
+        [('open-raises', c, lambda t, c=c: K.open_raises_case(c, t)) for c in K.OPEN_RAISES_CASES]
+    for i, (grp, name, fn) in enumerate(todo):
+        probs: List[K.Problem] = []
+        for attempt in range(3):
+            tmp = os.path.join(base_tmp, 'edge%d-%d' % (i, attempt))
+            os.makedirs(tmp, exist_ok=True)
+            got = await fn(tmp)
+            if attempt == 0:
+                probs = got
+            else:
+                sigs = set(p[0] for p in got)
+                probs = [p for p in probs if p[0] in sigs]
+            if not probs:
+                break
+        out.append((grp, name, probs))
+    return out
 
 
 # ---------------------------------------------------------------------------------------------------------
@@ -1519,6 +1766,8 @@ def replay(ctx: Ctx, rep: Dict[str, Any]) -> List[Failure]:
         o = [x for x in pair.run(hostile_host_cases([r['host']]), timeout=60) if x['via'] == r['via']]
         return [Failure('ssh-connection-killed:destination-host-rejected-by-resolver', str(o[0]), r)] \
             if o and (o[0]['server_closed'] or o[0]['client_closed']) else []
+    if kind in ('address', 'hostile-listen', 'dest-race', 'open-raises'):
+        return [Failure(sig, what, r) for sig, what, _rep in K.replay(r, ctx.tmpdir())]
     if kind == 'listeners':
         data = pair.run(run_listener_cases([r['ops']], ctx.tmpdir(), [0]), timeout=120)
         n = data[0][1]
